@@ -154,7 +154,7 @@ def check(ctx):
         mu = d.get(f"mu_{side}_bound")
         vals = ("attr", ("attr", G, f"{side}_bounds"), "values")
         okm = (mu is not None and mu[0] == "call" and mu[1] == ("global", f"{MU}:weighted_median") and mu[2][0] == vals
-               and ir.show(mu[2][1], maxdepth=8).replace(" ", "") == ir.show(("call", ("attr", ("bin", "/", last, ("call", ("global", "numpy.sum"), (last,), ())), "to_numpy"), (), ()), maxdepth=8).replace(" ", ""))
+               and ir.show(mu[2][1], maxdepth=8).replace(" ", "") == ir.show(("attr", ("bin", "/", last, ("call", ("global", "numpy.sum"), (last,), ())), "values"), maxdepth=8).replace(" ", ""))
         ctx.ob("C15.R4.centre", f"{ff.qualname}|mu_{side} = baseline-weighted median of the {side} scores", okm, ff.where(),
                f"mu_{side}_bound = weighted_median({side}_bounds, baseline / sum(baseline))" if okm else f"mu_{side}_bound = {ir.show(mu, maxdepth=4) if mu else None}")
         sg = d.get(f"sigma_{side}_bound")
